@@ -232,6 +232,12 @@ def _single_merge_cases(tier, rng):
             if kind in ('EAItemSwap', 'EAItemDelete'):
                 a2['story'] = None      # without element_target there is no story reference
             yield dict(kind=kind, args=a2, ro=ro, level='item' if 'Item' in kind else 'story')
+        # references that differ from an existing ID only by surrounding white space name nothing (IDs are compared exactly)
+        ro = dict(stories=S, meta_layout='before', items={S[0]: ['1', '2']})
+        for kind, args in (('EAItemSwap', dict(story=S[0], ids=['2', '2 '])), ('EAItemSwap', dict(story=S[0], ids=[' 1', '1'])),
+                           ('EAStorySwap', dict(ids=[S[0], S[0] + ' '])), ('ItemDelete', dict(story=S[0], ids=['1 '])),
+                           ('EAItemMove', dict(story=S[0], target='1', ids=['2 '])), ('StoryDelete', dict(ids=[' ' + S[0]]))):
+            yield dict(kind=kind, args=args, ro=ro, level='item' if 'Item' in kind else 'story')
         for nd in ([S[0]], [S[len(S) // 2]], list(S), 'onetime'):
             ro = dict(stories=S, meta_layout='before', items={S[0]: ['1']}, nodur=nd)
             if nd == 'onetime':
